@@ -368,3 +368,16 @@ Proof.
     constructor; [lia|]. eapply Forall_impl; [|exact H2]. cbn beta. intros; lia.
   - eapply Forall_impl; [|exact IH]. cbn beta. intros; cbn [length]; lia.
 Qed.
+
+(* ------------------------------------------------------------ lines_cover *)
+Lemma lines_cover (d : bytes) :
+  chain 0 (find_lines d) (length d)
+  /\ concat (map (line_span d) (find_lines d)) = d
+  /\ Forall (fun l => ~ In LF (slice d (l_start l) (l_end l))
+                      /\ good_term (slice d (l_end l) (l_next l)))
+            (find_lines d).
+Proof.
+  split; [apply find_lines_chain|]. split; [|apply find_lines_terms].
+  rewrite (concat_spans_chain d _ 0 (length d) (find_lines_chain d) (le_n _)).
+  apply slice_full.
+Qed.
